@@ -37,6 +37,14 @@ def callm(*objs):
     return deco
 
 
+class _Skip:
+    def __repr__(self):
+        return "SKIP"
+
+
+SKIP = _Skip()
+
+
 def method_model(K, name):
     m = METHODS.get((K, name))
     if m is not None:
@@ -969,11 +977,33 @@ def bytes_repr(run, self):
 # ====================================================================== list / tuple
 @method(list, "__new__")
 def list_new(run, clsv, *a, **kw):
+    if a and isinstance(a[0], (VSymIter, VSymList)):
+        src = a[0]
+        out = VSymList(clsv.obj, src.next_elem, "list(" + src.label + ")")
+        # a list built from an iterator has as many elements as the iterator yields: share the length of the source
+        base = src
+        while getattr(base, "source", None) is not None:
+            base = base.source
+        out.length = getattr(base, "length", None)
+        run.ghost.setdefault("list_from", []).append((out, src))
+        # building the list consumes the iterator: expose what one arbitrary element does (it may raise)
+        n = out.length
+        if n is None:
+            n = run.fresh_int("len")
+            run.assume(n >= 0)
+            if not isinstance(src, VSymIter) or src.label not in ("filter",):
+                out.length = n
+        if run.branch(run.fresh("source_nonempty", z3.BoolSort())):
+            probe = src.next_elem(run)
+            run.ghost.setdefault("list_probe", []).append((out, probe))
+        return out
     return VList(clsv.obj, [])
 
 
 @method(list, "__init__")
 def list_init(run, self, it=None):
+    if isinstance(self, VSymList):
+        return NONE
     if it is None:
         self.items = []
     else:
@@ -996,8 +1026,25 @@ METHODS[(list, "__len__")] = _seq_len
 METHODS[(tuple, "__len__")] = _seq_len
 
 
+def _symlist_getitem(run, self, idx):
+    if not isinstance(idx, VInt):
+        hit = run.find_attr(idx.cls, "__index__")
+        if hit is None:
+            run.throw(TypeError, f"list indices must be integers or slices, not {idx.cls.__name__}")
+        idx = run.call(run.bind_raw(hit[0], "__index__", hit[1], idx, idx.cls), [])
+    n = b_len(run, self).t
+    if run.branch(z3.Or(idx.t >= n, idx.t < -n)):
+        run.throw(IndexError, "list index out of range")
+    pos = z3.If(idx.t < 0, idx.t + n, idx.t)
+    e = self.next_elem(run)
+    run.ghost.setdefault("indexed", []).append((self, pos, e))
+    return e
+
+
 def _seq_getitem(run, self, idx):
     se = _se()
+    if isinstance(self, VSymList):
+        return _symlist_getitem(run, self, idx)
     items = self.items
     if isinstance(idx, se.VSlice):
         try:
@@ -1046,6 +1093,9 @@ def seq_iter(run, self):
 
 @method(list, "append")
 def list_append(run, self, x):
+    if isinstance(self, VSymList):
+        run.ghost.setdefault("appended", []).append((self, x))
+        return NONE
     self.items.append(x)
     return NONE
 
@@ -1373,6 +1423,8 @@ def b_len(run, v):
             v.length = run.fresh_int("len")
             run.assume(v.length >= 0)
         return VInt(int, v.length)
+    if isinstance(v, VZSeq):
+        return VInt(int, z3.Length(v.t))
     hit = run.find_attr(v.cls, "__len__")
     if hit is None:
         run.throw(TypeError, f"object of type '{v.cls.__name__}' has no len()")
@@ -1434,6 +1486,8 @@ def b_hasattr(run, v, name):
 
 @callm(builtins.iter)
 def b_iter(run, v):
+    if isinstance(v, (VSymList, VSymIter)):
+        return VSymIter(v.next_elem, "iter", source=v)
     return VIter(run.iterate(v))
 
 
@@ -1453,7 +1507,9 @@ def b_next(run, it, *default):
 def b_map(run, f, *its):
     if len(its) == 1 and isinstance(its[0], (VSymIter, VSymList)):
         src = its[0]
-        return VSymIter(lambda run: run.call(f, [src.next_elem(run)]), "map")
+        if isinstance(src, VSymList):
+            b_len(run, src)       # fix the (symbolic) length of the source so that derived sequences can share it
+        return VSymIter(lambda run: run.call(f, [src.next_elem(run)]), "map", source=src)
     srcs = [run.iterate(i) for i in its]
 
     def gen():
@@ -1464,6 +1520,15 @@ def b_map(run, f, *its):
 
 @callm(builtins.filter)
 def b_filter(run, f, it):
+    if isinstance(it, (VSymIter, VSymList)):
+        def nxt(run):
+            x = it.next_elem(run)
+            if x is SKIP:
+                return x
+            keep = run.is_true(x) if isinstance(f, VNone) else run.is_true(run.call(f, [x]))
+            run.ghost.setdefault("filter_log", []).append((x, keep))
+            return x if keep else SKIP
+        return VSymIter(nxt, "filter", source=it)
     src = run.iterate(it)
 
     def gen():
@@ -1521,6 +1586,8 @@ def b_sorted(run, it, key=None, reverse=None):
 @callm(builtins.sum)
 def b_sum(run, it, start=None):
     acc = start if start is not None else VInt(int, 0)
+    if isinstance(it, (VSymIter, VSymList)):
+        return b_reduce(run, VModel(lambda run, a, b: run.binop("Add", a, b), "sum-step"), it, acc)
     for x in run.iterate(it):
         acc = run.binop("Add", acc, x)
     return acc
@@ -1633,10 +1700,14 @@ def b_reduce(run, f, it, *init):
         sm = inv.fresh(run)
         acc = inv.make_acc(run, sm)
         x = it.next_elem(run)
-        run.ghost["fold_step_summary"] = inv.extend(sm, x)
-        acc2 = run.call(f, [acc, x])
-        run.ghost.pop("fold_step_summary", None)
-        run.check(inv.holds(acc2, inv.extend(sm, x)), "fold invariant preserved by one more element")
+        if x is SKIP:
+            acc2 = acc                      # a filtered generator produced nothing for this source element
+            run.check(inv.holds(acc2, inv.extend(sm, x)), "fold invariant preserved by a skipped element")
+        else:
+            run.ghost["fold_step_summary"] = inv.extend(sm, x)
+            acc2 = run.call(f, [acc, x])
+            run.ghost.pop("fold_step_summary", None)
+            run.check(inv.holds(acc2, inv.extend(sm, x)), "fold invariant preserved by one more element")
         smf = inv.fresh(run)
         accf = inv.make_acc(run, smf)
         run.ghost["fold_final_summary"] = smf
